@@ -1,4 +1,5 @@
 import JP.Cst
+import JP.Lemmas.ParseAux
 
 /-!
 # Well-formed syntax trees
